@@ -9,6 +9,8 @@ assert subprocess.run("git -C /repo status --porcelain", shell=True, capture_out
 r = subprocess.run("git -C /repo apply %s" % os.path.join(d, "patch.diff"), shell=True, capture_output=True, text=True)
 if r.returncode != 0:
     r = subprocess.run("git -C /repo apply --3way %s" % os.path.join(d, "patch.diff"), shell=True, capture_output=True, text=True)
+    if r.returncode != 0:
+        subprocess.run("git -C /repo checkout HEAD -- . && git -C /repo reset -q", shell=True)      # (a failed 3-way leaves conflict markers)
     assert r.returncode == 0, "patch no longer applies: " + r.stderr
 try:
     for c in props:
